@@ -87,12 +87,14 @@ def run_jobshop_instance(r, jobs, deep):
         for rule in RULES:
             if rule == "random" and n_ops > 4:
                 continue
-            for ls, mi in ((False, 0),) + (((True, 1), (True, 2), (True, 3)) if deep else ((True, 2),)):
+            # stop = k: an on_progress callback that asks to stop from iteration k on (progress_interval=1)
+            for ls, mi, stop in ((False, 0, None),) + (((True, 1, None), (True, 2, None), (True, 3, None), (True, 2, 1), (True, 3, 1), (True, 3, 2)) if deep else ((True, 2, None), (True, 2, 1))):
                 js.Random = e2.ScriptedRandom
+                pkw = {} if stop is None else {"on_progress": (lambda p, stop=stop: p.iteration >= stop), "progress_interval": 1}
 
                 def run(script):
                     try:
-                        return gcall(lambda: js.solve_job_shop([list(j) for j in jobs], rule=rule, local_search=ls, max_iter=mi), 5.0, 20_000_000), None
+                        return gcall(lambda: js.solve_job_shop([list(j) for j in jobs], rule=rule, local_search=ls, max_iter=mi, **pkw), 5.0, 20_000_000), None
                     except SolverHang as ex:
                         return None, "nontermination"
                     except Exception as ex:  # noqa: BLE001
@@ -106,7 +108,7 @@ def run_jobshop_instance(r, jobs, deep):
                     r["counters"]["traces"] += 1
                     if script.choices:
                         r["nontrivial"] += 1
-                    wit = dict(wit0, rule=rule, local_search=ls, max_iter=mi, choices=list(script.choices))
+                    wit = dict(wit0, rule=rule, local_search=ls, max_iter=mi, choices=list(script.choices), **({} if stop is None else {"stop_at": stop}))
                     if err:
                         r["outcomes"]["job_shop:" + err.split()[0]] += 1
                         r["violations"].append(viol("solve_job_shop", err.split()[0].rstrip(":"), wit, f"solve_job_shop({jobs}, rule={rule}, local_search={ls}, max_iter={mi}) with RNG answers {script.choices}: {err}"))
